@@ -375,6 +375,128 @@ def epoll_cache_shape(repo, w):
     w(f"def epollRecordsOnError : Bool := {'false' if m.group(1) else 'true'}\n")
 
 
+# ---------------------------------------------------------------- path enumeration over a function body
+def _skip_ws(t, i):
+    while i < len(t) and t[i].isspace():
+        i += 1
+    return i
+
+
+def _match(t, i, open_c, close_c):
+    depth = 0
+    j = i
+    while j < len(t):
+        if t[j] == open_c:
+            depth += 1
+        elif t[j] == close_c:
+            depth -= 1
+            if depth == 0:
+                return j
+        j += 1
+    raise Untranslatable("unbalanced " + open_c)
+
+
+def _parse_stmt(t, i):
+    """-> (node, next index); node = ('if', cond, then_nodes, else_nodes|None) | ('block', nodes) | ('simple', text)"""
+    i = _skip_ws(t, i)
+    if t.startswith("{", i):
+        j = _match(t, i, "{", "}")
+        return ("block", _parse_stmts(t[i + 1:j])), j + 1
+    m = re.match(r"if\s*\(", t[i:])
+    if m:
+        k = _match(t, i + m.end() - 1, "(", ")")
+        then_node, n = _parse_stmt(t, k + 1)
+        n2 = _skip_ws(t, n)
+        m2 = re.match(r"else\b", t[n2:])
+        if m2:
+            else_node, n3 = _parse_stmt(t, n2 + m2.end())
+            return ("if", t[i:k + 1], [then_node], [else_node]), n3
+        return ("if", t[i:k + 1], [then_node], None), n
+    if re.match(r"(for|while|switch|do)\b", t[i:]):
+        raise Untranslatable("completion functor: loop/switch statement not understood: " + t[i:i + 40])
+    # simple statement up to ';' at depth 0
+    depth, j = 0, i
+    while j < len(t):
+        if t[j] in "({":
+            depth += 1
+        elif t[j] in ")}":
+            depth -= 1
+        elif t[j] == ";" and depth == 0:
+            break
+        j += 1
+    return ("simple", t[i:j + 1]), j + 1
+
+
+def _parse_stmts(t):
+    nodes, i = [], 0
+    while _skip_ws(t, i) < len(t):
+        node, i = _parse_stmt(t, i)
+        nodes.append(node)
+    return nodes
+
+
+def _count_simple(txt):
+    calls = len(re.findall(r"(?<![\w>.:])h\s*\(", txt)) + len(re.findall(r"\bpost\s*\(\s*h\b", txt))
+    arms = (len(re.findall(r"\bon_readable\s*\(", txt)) + len(re.findall(r"\bon_writeable\s*\(", txt))
+            + len(re.findall(r"\basync_accept\s*\(", txt)) + len(re.findall(r"->\s*run\s*\(\s*\)", txt)))
+    return calls, arms, bool(re.match(r"\s*return\b", txt))
+
+
+def _paths(nodes):
+    """all paths through a statement list: list of (calls, arms, returned)"""
+    res = [(0, 0, False)]
+    for nd in nodes:
+        nxt = []
+        for c, a, done in res:
+            if done:
+                nxt.append((c, a, True))
+                continue
+            if nd[0] == "simple":
+                c2, a2, r2 = _count_simple(nd[1])
+                nxt.append((c + c2, a + a2, r2))
+            elif nd[0] == "block":
+                for c2, a2, r2 in _paths(nd[1]):
+                    nxt.append((c + c2, a + a2, r2))
+            else:
+                cc, ca, _ = _count_simple(nd[1])       # calls inside the condition itself (none expected)
+                for c2, a2, r2 in _paths(nd[2]):
+                    nxt.append((c + cc + c2, a + ca + a2, r2))
+                if nd[3] is not None:
+                    for c2, a2, r2 in _paths(nd[3]):
+                        nxt.append((c + cc + c2, a + ca + a2, r2))
+                else:
+                    nxt.append((c + cc, a + ca, False))
+        res = nxt
+    return res
+
+
+def functor_tables(repo, w):
+    def prep(path):
+        t = strip_c_comments(open(os.path.join(repo, path)).read())
+        t = re.sub(r"#ifdef\s+BOOSTER_AIO_FORCE_POLL(.*?)#else(.*?)#endif", lambda m: m.group(2), t, flags=re.S)
+        t = re.sub(r"#ifdef\s+BOOSTER_WIN32(.*?)#else(.*?)#endif", lambda m: m.group(2), t, flags=re.S)
+        t = re.sub(r"#ifndef\s+BOOSTER_WIN32(.*?)#else(.*?)#endif", lambda m: m.group(1), t, flags=re.S)
+        return t
+    ss = prep("booster/lib/aio/src/stream_socket.cpp")
+    ac = prep("booster/lib/aio/src/acceptor.cpp")
+    rows = []
+    for src, name, fns in ((ss, "reader_some", ["operator()"]), (ss, "writer_some", ["operator()"]), (ss, "async_connector", ["operator()"]),
+                           (ss, "reader_all", ["run", "operator()"]), (ss, "writer_all", ["run", "operator()"]),
+                           (ac, "async_acceptor", ["operator()"])):
+        body = function_body(src, r"struct\s+" + name + r"\b[^{;]*\{")
+        for fn in fns:
+            rx = (r"void\s+operator\(\)\s*\(\s*system::error_code\s+const\s*&\s*e\s*\)\s*\{" if fn == "operator()"
+                  else r"void\s+run\s*\(\s*\)\s*\{")
+            fb = function_body(body, rx)
+            ps = _paths(_parse_stmts(fb))
+            rows.append((name + "::" + fn, [(c, a) for c, a, _ in ps]))
+    w("/-- completion functors of stream_socket.cpp / acceptor.cpp: for every path through the function (if/else tree, early")
+    w("    returns): (user handler called or posted, waits re-armed / continuation restarted) -/")
+    w("def functorPaths : List (String × List (Nat × Nat)) := [")
+    w(",\n".join(f"  ({lean_str(n)}, [" + ", ".join(f"({c}, {a})" for c, a in ps) + "])" for n, ps in rows))
+    w("]\n")
+
+
 def main(repo, lean, extra=None):
     io_path = os.path.join(repo, "booster/lib/aio/src/io_service.cpp")
     tp_path = os.path.join(repo, "src/thread_pool.cpp")
@@ -593,6 +715,7 @@ def main(repo, lean, extra=None):
     reactor_tables(repo, w)
     epoll_cache_shape(repo, w)
     device_tables(repo, w)
+    functor_tables(repo, w)
     w("end Cppcms.C17.Gen")
     path = os.path.join(lean, "Cppcms", "C17", "Gen.lean")
     write_if_changed(path, "\n".join(o) + "\n")
